@@ -240,12 +240,24 @@ type c05xCase struct {
 	Str      []byte     `json:"str"`
 	TagIndex int        `json:"tag_index"`
 	InSlice  int        `json:"in_slice"` // BQ: also as slice element / struct field via a registering instance
+	Tree     *jany      `json:"tree,omitempty"` // JSON-any codecs
 }
 
 var c05x = &vh.Prop[c05xCase]{
 	ID: "C05", Name: "exported-codecs",
 	Gen: func(t *rapid.T) c05xCase {
-		which := []string{"bq", "bq-instance", "interned", "timecompat", "time"}[rapid.IntRange(0, 4).Draw(t, "which")]
+		which := []string{"bq", "bq-instance", "interned", "timecompat", "time", "json", "json"}[rapid.IntRange(0, 6).Draw(t, "which")]
+		if which == "json" {
+			root := genJAny(t, rapid.IntRange(1, 4).Draw(t, "jdepth"))
+			if root.K != "obj" && root.K != "arr" {
+				if rapid.Bool().Draw(t, "jwrap") {
+					root = jany{K: "arr", Kids: []jany{root}}
+				} else {
+					root = jany{K: "obj", Keys: [][]byte{genJString(t)}, Kids: []jany{root}}
+				}
+			}
+			return c05xCase{Which: which, Tree: &root, TagIndex: []int{1, 16, 3000}[rapid.IntRange(0, 2).Draw(t, "ti")]}
+		}
 		tv := vh.GenVal(t, vh.T(vh.KTime), vh.VProfile{JSONTimes: true})
 		sv := vh.GenVal(t, vh.T(vh.KString), vh.VProfile{})
 		return c05xCase{Which: which, Time: *tv.T, Str: sv.S, TagIndex: []int{1, 16, 3000}[rapid.IntRange(0, 2).Draw(t, "ti")],
@@ -257,6 +269,35 @@ var c05x = &vh.Prop[c05xCase]{
 		tm := c.Time.Time()
 		freshTime := func() unsafe.Pointer { return unsafe.Pointer(new(time.Time)) }
 		switch c.Which {
+		case "json":
+			// the JSON-any codecs, on every container of the tree (nested ones included)
+			var walk func(n *jany) *vh.Failure
+			walk = func(n *jany) *vh.Failure {
+				val := n.toGo()
+				lc.unordered = hasMultiObj(n)
+				switch n.K {
+				case "obj":
+					m, _ := val.(map[string]any)
+					if m != nil {
+						wptr := *(*unsafe.Pointer)(unsafe.Pointer(&m))
+						if f := codecLaws(lc, "JSONMapCodec", plenccodec.JSONMapCodec{}, wptr, func() unsafe.Pointer { return unsafe.Pointer(new(map[string]any)) }, false, nil, nil); f != nil {
+							return f
+						}
+					}
+				case "arr":
+					a, _ := val.([]any)
+					if f := codecLaws(lc, "JSONArrayCodec", plenccodec.JSONArrayCodec{}, unsafe.Pointer(&a), func() unsafe.Pointer { return unsafe.Pointer(new([]any)) }, false, nil, nil); f != nil {
+						return f
+					}
+				}
+				for i := range n.Kids {
+					if f := walk(&n.Kids[i]); f != nil {
+						return f
+					}
+				}
+				return nil
+			}
+			return walk(c.Tree)
 		case "bq":
 			return codecLaws(lc, "BQTimestampCodec", plenccodec.BQTimestampCodec{}, unsafe.Pointer(&tm), freshTime, false, nil, nil)
 		case "time":
